@@ -167,6 +167,7 @@ func quietApi() (bool, string) {
 func waitQuietApi(t *testing.T) {
 	deadline := time.Now().Add(30 * time.Second)
 	streak := 0
+	pause := 50 * time.Microsecond
 	for {
 		ok, why := quietApi()
 		if ok {
@@ -182,7 +183,10 @@ func waitQuietApi(t *testing.T) {
 			t.Logf("watchdog: API goroutines did not become quiet: %s", why)
 			return
 		}
-		time.Sleep(50 * time.Microsecond)
+		time.Sleep(pause)
+		if pause < 2*time.Millisecond {
+			pause *= 2
+		}
 	}
 }
 
@@ -341,6 +345,14 @@ func runApiHistory(t *testing.T, r *Rng, side *Sidecar, nops int) (string, apiHi
 			break
 		}
 	}
+	// leave as little as possible behind: the filters' consumers and topics end with their filters, then the endpoint
+	for _, id := range w.api.VerifFilterIDs() {
+		w.api.UninstallFilter(id)
+	}
+	if watchdogHit == "" {
+		waitQuietApi(t)
+	}
+	w.f.shutdown()
 	return fmt.Sprintf("(PApi %s %s %s)", CqNat(cap), CqList(ops), CqList(snaps)), hist, nontrivial
 }
 
